@@ -468,3 +468,64 @@ Definition ns_set (st : cache) (c : centry) (attr : string) (p : pattern) : cach
 Definition ns_lookup (st : cache) (c : centry) (attr : string) : option pattern := lookup_names st (cmro c).
 Definition mk_DNARegex (p : pattern) : pattern := p.          (* DNARegex(text): the compiled pattern *)
 Definition cls_structure (c : centry) : pattern := cpat (ccls c).
+
+(* ---------- texts of DNA patterns (structure() of modules.py / vectors.py) ------------------------- *)
+
+(* a character of such a text: an IUPAC letter (upper case, as Bio.Restriction writes sites), the
+   two cut markers of elucidate(), the three regex characters structure() inserts *)
+Inductive sch := SL (c : code) | SCaret | SUnder | SOpen | SClose | SStar | SOther (a : ascii).
+Definition pystr := list sch.
+
+Definition sch_eqb (a b : sch) : bool :=
+  match a, b with
+  | SL x, SL y => code_eqb x y
+  | SCaret, SCaret | SUnder, SUnder | SOpen, SOpen | SClose, SClose | SStar, SStar => true
+  | SOther x, SOther y => Ascii.eqb x y
+  | _, _ => false
+  end.
+
+Definition sch_of_ascii (a : ascii) : sch :=
+  match a with
+  | "A"%char => SL cA | "C"%char => SL cC | "G"%char => SL cG | "T"%char => SL cT
+  | "R"%char => SL cR | "Y"%char => SL cY | "S"%char => SL cS | "W"%char => SL cW
+  | "K"%char => SL cK | "M"%char => SL cM | "B"%char => SL cB | "D"%char => SL cD
+  | "H"%char => SL cH | "V"%char => SL cV | "N"%char => SL cN
+  | "^"%char => SCaret | "_"%char => SUnder | "("%char => SOpen | ")"%char => SClose | "*"%char => SStar
+  | _ => SOther a
+  end.
+(* a string constant of the source *)
+Fixpoint sch_of_string (s : string) : pystr :=
+  match s with EmptyString => [] | String a r => sch_of_ascii a :: sch_of_string r end.
+
+(* str(x), Seq(x): the text itself *)
+Definition sch_id (s : pystr) : pystr := s.
+
+(* Bio.Restriction, cutter.elucidate() for an enzyme cutting downstream of an unambiguous site with
+   a 5' overhang: the site, N x offset, "^", N x overhang, "_", "N" *)
+Definition enz_elucidate (e : enzyme) : pystr :=
+  map SL (esite e) ++ repeat (SL cN) (eoff e) ++ [SCaret] ++ repeat (SL cN) (eovh e) ++ [SUnder; SL cN].
+
+(* Seq(text).reverse_complement(): letters complemented, everything else kept, order reversed *)
+Definition sch_compl (c : sch) : sch := match c with SL x => SL (compl x) | y => y end.
+Definition sch_rc (s : pystr) : pystr := rev (map sch_compl s).
+
+(* text.replace(old, new): leftmost non-overlapping occurrences; an empty `old` is not used by the source *)
+Fixpoint sch_prefix (p s : pystr) : option pystr :=
+  match p, s with
+  | [], _ => Some s
+  | x :: p', y :: s' => if sch_eqb x y then sch_prefix p' s' else None
+  | _ :: _, [] => None
+  end.
+Fixpoint sch_replace_fuel (fuel : nat) (s old new : pystr) : pystr :=
+  match fuel with
+  | O => s
+  | S f =>
+    match s with
+    | [] => []
+    | c :: r => match sch_prefix old s with
+                | Some rest => match old with [] => s | _ => new ++ sch_replace_fuel f rest old new end
+                | None => c :: sch_replace_fuel f r old new
+                end
+    end
+  end.
+Definition sch_replace (s old new : pystr) : pystr := sch_replace_fuel (S (List.length s)) s old new.
